@@ -270,6 +270,32 @@ Theorem C18_raw_create_destroy_once :
 Proof. exact RawLife.raw_create_destroy_once. Qed.
 Print Assumptions C18_raw_create_destroy_once.
 
+(* ---- review round: theorems behind every function that meta.json lists as generated ---- *)
+
+(* the generated UIntMath<size_t>::Ceil (used by the model of pvAddEdges for every offset): for 0 < m <= 16 and v <= 2^63 the
+   result is the least multiple of m that is >= v, without wrap-around *)
+Theorem C18_generated_Ceil :
+  forall v m, 0 < m <= 16 -> 0 <= v <= 2 ^ 63 ->
+    v <= Gen_Ceil.Ceil v m < v + m /\ Gen_Ceil.Ceil v m mod m = 0.
+Proof. exact Layout.Ceil_spec. Qed.
+Print Assumptions C18_generated_Ceil.
+
+(* DEFINITIONAL (no content beyond the shape of the generated text): the generated getters return the member, and the
+   generated IsMutable asserts `offset < mTotalSize` (Stuck at offset = mTotalSize) *)
+Theorem C18_generated_getters_definitional :
+  forall cp a ts al mb,
+    Gen_List.GetTotalSize cp a ts al = ts /\ Gen_List.GetAlignment cp a ts al = al /\
+    Gen_Mut.IsMutable Gen_Bits.GetBit ts mb ts = Stuck.
+Proof. exact Inv.generated_getters. Qed.
+Print Assumptions C18_generated_getters_definitional.
+
+(* the invariant used as hypothesis of C18_add_spec / C18_add_with_allocation_failures is established: the freshly
+   constructed list satisfies it (and C18_reachable_invariant_with_failures: every operation preserves it) *)
+Theorem C18_invariant_initially :
+  forall L keep, 4 <= L <= 15 -> Inv.Inv L keep (Model.init keep).
+Proof. exact Inv.inv_init. Qed.
+Print Assumptions C18_invariant_initially.
+
 (* ---- round 4 (model growth): more of the code under the theorems ---- *)
 
 (* the constants of the model are the source's (cxx2coq emit_consts): what they evaluate to *)
